@@ -123,7 +123,7 @@ class C05(IRProp):
     id = "C05"
     prop_file = "Properties/C05.v"
     tag = "c05"
-    genopts = dict(with_ext=True, with_lead=True, align_patches=True, multi_labels=True)
+    genopts = dict(with_ext=True, with_lead=True, align_patches=True, multi_labels=True, shared_ret_proxy=0.3)
     trusted_base = IRProp.base_trusted + ["gtirb's protobuf serializer (the round trip is tested, not proved)"]
     assumptions = ["failures are injected as exceptions raised by patch callbacks; failures inside the library itself (assertions on inputs it "
                    "refuses) leave the same kind of state and are validated the same way"]
